@@ -31,7 +31,7 @@ CHECKS = {
              'filter_exceptions raises exactly the first exception neither kept nor dropped, groupby shape), '
              'C03_shuffle_perm (permutation for every choice script), C03_lazy (building pulls nothing), '
              'C03_incremental(_k) (one-to-one chains pull <= handed + sum of per-operator constants). Tie on every run: '
-             'random programs x inputs run on the real Stream (full, partial and repeated consumption, instrumented source, '
+             'random programs x inputs run on the real Stream (full, partial and repeated consumption, two simultaneously live iterations of one Stream for pipelines of single-threaded operators, instrumented source, '
              'scripted random) and compared by drv pipeline with semAll and the pull machine (outputs, ending, pull counts); '
              'a Python reference meaning is the monitor that yields replays.',
         note='Lean 4 kernel + axioms {propext, Classical.choice, Quot.sound}; hand-written model tied to /repo by differential '
@@ -51,7 +51,7 @@ CHECKS = {
     'C08': dict(
         technique='Lean 4 proof (counting invariant of the fifo_stream / Buffer LTS models) + schedule-controlled trace refinement',
         text='C08_fifo_lookahead: pulled - handed <= cap+3 in every reachable state, for every schedule, cap, conc, n; '
-             'C08_parmap_lookahead (cap = 2*conc); C08_concurrency. The bound is attained (non-vacuity example). '
+             'C08_parmap_lookahead (cap = 2*conc); C08_concurrency. The bounds are attained for every capacity (C08_fifo_lookahead_attained, C08_buffer_lookahead_attained, C08_*_queue_bound_attained; the evidence counts the real runs that reach them exactly). '
              'Tie and monitors (look-ahead at every pull, concurrent calls) as for C01; real-process pools sampled (E4); '
              'async worker functions: the concurrency clause is FALSE for the code as it is (known finding F35, '
              'kernel-checked witness C08_async_workers_unlimited_witness over the async model, monitors on the real '
@@ -302,7 +302,7 @@ CHECKS = {
 
 CHECKS['C06'] = dict(
     technique='Lean 4 proof (inductive invariants over an LTS model of the server ledger: mutual exclusion, capacity, id uniqueness, conservation) + schedule-controlled trace refinement against the real Server',
-    text='C06_bound (ledger size <= capacity in every reachable state, any number of callers, any interleaving with the '
+    text='C06_bound (+ C06_bound_attained: reached for every capacity) (ledger size <= capacity in every reachable state, any number of callers, any interleaving with the '
          'gather/notifier threads, time-outs at any moment), C06_reject_clean, C06_backpressure_never_waits, '
          'C06_entries_in_flight + C06_slots_returned (no response dropped; backlog zero at rest). Tie: real Server under '
          'the deterministic scheduler, public backlog sampled at every scheduling step, small cases replayed through the '
